@@ -92,7 +92,8 @@ class Engine:
         self.unitfuncs = {}  # (unit,name) -> f
         self.globals = {}
         for u, d in units.items():
-            for g in d['globals']: self.globals[g['name']] = g
+            for g in d['globals']:
+                if g['init'] or g['name'] not in self.globals: self.globals[g['name']] = g     # the defining unit wins over extern declarations
             for f in d['functions']:
                 if f['decl']: continue
                 self.unitfuncs[(u, f['name'])] = f
@@ -403,7 +404,7 @@ class Engine:
             labels = self.policy.labels(region, off)
             if isptr and off is not None:
                 tg = getattr(self.policy, 'ptr_rules', {}).get((region[1], off))
-                if tg: return AV(frozenset(labels), frozenset((('G', g), 0) for g in tg))
+                if tg: return AV(frozenset(labels), frozenset(((('F', g[2:]) if g.startswith('F:') else ('G', g)), 0) for g in tg))
                 return AV(frozenset(labels), frozenset([(('X', region[1] + (off,)), 0)]))
             return AV(frozenset(labels))
         return fn
@@ -476,6 +477,7 @@ class Engine:
                 res = res.join(AV(r.labels)); continue
             r = self.run_function(t, ctx + ((fn, i['id']),), A, unit=u)
             if r is None: res = res.join(self.unknown_call(A, t))
+            elif t in getattr(self.policy, 'public_results', ()): res = res.join(AV(frozenset(), r.ptrs))     # documented public verdict
             else: res = res.join(r)
         return res
     def unknown_call(self, A, name=None):
@@ -530,8 +532,18 @@ class Engine:
                         self.mem.store(dr, None, self.mem.load(sr, o2, size=1), lo=doff + k, var=True, owner=self.owner, exc=exc)
                 if sr[0] == 'X':
                     # external source: header cell + body
-                    self.mem.store(dr, doff, ext(sr, soff))
-                    self.mem.store(dr, None, ext(sr, None), lo=doff + 1, var=True, exc=frozenset([doff]))
+                    if clen is not None and clen <= 1024 and soff is not None:
+                        # constant-size copy of an external object: field-precise, one exact cell per byte
+                        for k in range(clen):
+                            self.mem.store(dr, doff + k, ext(sr, soff + k))
+                    else:
+                        self.mem.store(dr, doff, ext(sr, soff))
+                        self.mem.store(dr, None, ext(sr, None), lo=doff + 1, var=True, exc=frozenset([doff]))
+                    # pointer-valued cells of the source that the policy binds to known targets keep their targets in the copy
+                    pext = self.ext_ptr({'ty': 'i8*'})
+                    for (path, poff) in getattr(self.policy, 'ptr_rules', {}):
+                        if path == sr[1] and soff <= poff and (clen is None or poff < soff + clen):
+                            self.mem.store(dr, doff + (poff - soff), pext(sr, poff))
     def ccopy(self, ctx, fn, i, A):
         ctl, dst, src, ln = A
         if dst.labels or src.labels or ln.labels: self.alarm(ctx, fn, i, 'ccopy address/length', dst.labels | src.labels | ln.labels)
